@@ -1629,3 +1629,86 @@ pub fn channel_send_check_inputs<CM: crate::ln::channelmanager::AChannelManager>
 ) -> Option<(u64, alloc::vec::Vec<(bool, u64)>, usize, [u64; 7], Option<u32>, u64, u32)> {
 	node.get_cm().verif_send_check_inputs(counterparty_node_id, channel_id)
 }
+
+/// C10: canonical key of an [`HTLCSource`]: `prev:<inbound channel id>:<inbound htlc id>` for a forwarded
+/// HTLC, `route:<payment id>:<first 6 bytes of the session key>` for a part of an own payment.
+///
+/// [`HTLCSource`]: crate::ln::channelmanager::HTLCSource
+pub fn htlc_source_key(src: &crate::ln::channelmanager::HTLCSource) -> alloc::string::String {
+	use crate::ln::channelmanager::HTLCSource;
+	match src {
+		HTLCSource::PreviousHopData(p) => alloc::format!("prev:{}:{}", p.channel_id, p.htlc_id),
+		HTLCSource::OutboundRoute { payment_id, session_priv, .. } => {
+			let mut s = alloc::string::String::new();
+			for b in &session_priv.secret_bytes()[..6] {
+				s.push_str(&alloc::format!("{:02x}", b));
+			}
+			alloc::format!("route:{}:{}", payment_id, s)
+		},
+		HTLCSource::TrampolineForward { .. } => alloc::string::String::from("trampoline"),
+	}
+}
+
+/// C10: the HTLC-level decisions of the most recent `ChannelManager` read in this process, recorded just
+/// before they are carried out: `fail <source key> chan=<outbound channel> hash=.. reason=..` for every entry
+/// of `failed_htlcs`, `claim <source key> downstream=<channel> closed=<bool>` for every entry of
+/// `pending_claims_to_replay`.
+#[cfg(feature = "std")]
+pub static STARTUP_DECISIONS: std::sync::Mutex<alloc::vec::Vec<alloc::string::String>> =
+	std::sync::Mutex::new(alloc::vec::Vec::new());
+
+/// C10: every entry of `ChannelMonitor::get_all_current_outbound_htlcs` as
+/// `<source key> hash=<payment hash> preimage=<0|1>`, sorted.
+pub fn monitor_outbound_htlcs_dump<Signer: crate::sign::ecdsa::EcdsaChannelSigner>(
+	monitor: &crate::chain::channelmonitor::ChannelMonitor<Signer>,
+) -> alloc::vec::Vec<alloc::string::String> {
+	let mut out = alloc::vec::Vec::new();
+	for (source, (htlc, preimage)) in monitor.get_all_current_outbound_htlcs() {
+		out.push(alloc::format!(
+			"{} hash={} preimage={}",
+			htlc_source_key(&source),
+			htlc.payment_hash,
+			preimage.is_some() as u8
+		));
+	}
+	out.sort();
+	out
+}
+
+/// C10: source keys of `ChannelMonitor::get_onchain_failed_outbound_htlcs`, sorted.
+pub fn monitor_onchain_failed_outbound_htlc_keys<Signer: crate::sign::ecdsa::EcdsaChannelSigner>(
+	monitor: &crate::chain::channelmonitor::ChannelMonitor<Signer>,
+) -> alloc::vec::Vec<alloc::string::String> {
+	let mut out: alloc::vec::Vec<alloc::string::String> = monitor
+		.get_onchain_failed_outbound_htlcs()
+		.into_iter()
+		.map(|(source, _)| htlc_source_key(&source))
+		.collect();
+	out.sort();
+	out
+}
+
+/// C10: `FundedChannel::verif_outbound_htlc_sources` of a channel of this manager as
+/// `<source key> hash=<payment hash> kind=<holding|pending|announced-blocked>`, sorted. Read-only.
+pub fn channel_outbound_htlc_sources<CM: crate::ln::channelmanager::AChannelManager>(
+	node: &CM, counterparty_node_id: &bitcoin::secp256k1::PublicKey,
+	channel_id: &crate::ln::types::ChannelId,
+) -> alloc::vec::Vec<alloc::string::String> {
+	let cm = node.get_cm();
+	let per_peer_state = cm.per_peer_state.read().unwrap();
+	let peer_state = match per_peer_state.get(counterparty_node_id) {
+		Some(p) => p.lock().unwrap(),
+		None => return alloc::vec::Vec::new(),
+	};
+	let chan = match peer_state.channel_by_id.get(channel_id).and_then(|c| c.as_funded()) {
+		Some(c) => c,
+		None => return alloc::vec::Vec::new(),
+	};
+	let mut out: alloc::vec::Vec<alloc::string::String> = chan
+		.verif_outbound_htlc_sources()
+		.into_iter()
+		.map(|(src, hash, kind)| alloc::format!("{} hash={} kind={}", htlc_source_key(&src), hash, kind))
+		.collect();
+	out.sort();
+	out
+}
